@@ -331,11 +331,11 @@ impl Scenario for Svc {
         let inner2 = GatedInner::new(w.inner.clone());
         let (svc, sibling) = if self.vegas {
             let layer = AdaptiveLimiterLayer::new(Vegas::new(self.initial, 1, 3, 1, 2));
-            (Handle::V(layer.layer(inner)), Handle::V(layer.layer(inner2)))
+            (Handle::V(layer.clone().layer(inner)), Handle::V(layer.layer(inner2)))
         } else {
             let a = Aimd::builder().initial_limit(self.initial).min_limit(1).max_limit(3).latency_threshold(Duration::from_millis(THRESH_MS)).build();
             let layer = AdaptiveLimiterLayer::new(a);
-            (Handle::A(layer.layer(inner)), Handle::A(layer.layer(inner2)))
+            (Handle::A(layer.clone().layer(inner)), Handle::A(layer.layer(inner2)))
         };
         X { svc, sibling, ready: (0..self.callers + 4).map(|_| None).collect(), ready_checks: 0, saw_refusal: false, last_checked: 0 }
     }
